@@ -128,16 +128,18 @@ def rule_R1(ctx, repo, flow):
     # the structure checks themselves reject
     cf = repo.func("sktime/forecasting/base/_meta.py", "_HeterogenousEnsembleForecaster._check_forecasters")
     m = repo.module("sktime/forecasting/base/_meta.py")
-    n_rej = sum(1 for n in ast.walk(cf) if isinstance(n, ast.If) and block_always_raises(n.body))
+    hc = repo.cls("sktime/forecasting/base/_meta.py:_HeterogenousEnsembleForecaster")
+    n_rej = _raise_sites(repo, flow, hc, hc, cf)
     calls_names = any(astq.call_name(c) == "_check_names" for c in astq.calls(cf))
-    ctx.check(n_rej >= 3 and calls_names, "R1", "_check_forecasters:rejects", "three rejecting branches and name validation",
-              "_check_forecasters has %d rejecting branches, calls _check_names: %s" % (n_rej, calls_names), ctx.loc(m, cf))
+    ctx.check(n_rej >= 3 and calls_names, "R1", "_check_forecasters:rejects", "three rejecting sites (shape, all dropped, member type) and name validation",
+              "_check_forecasters has %d rejecting sites, calls _check_names: %s" % (n_rej, calls_names), ctx.loc(m, cf))
     cs = repo.func("sktime/forecasting/compose/_pipeline.py", "TransformedTargetForecaster._check_steps")
     m = repo.module("sktime/forecasting/compose/_pipeline.py")
-    n_rej = sum(1 for n in ast.walk(cs) if isinstance(n, ast.If) and block_always_raises(n.body))
+    tc = repo.cls("sktime/forecasting/compose/_pipeline.py:TransformedTargetForecaster")
+    n_rej = _raise_sites(repo, flow, tc, tc, cs)
     calls_names = any(astq.call_name(c) == "_check_names" for c in astq.calls(cs))
     ctx.check(n_rej >= 2 and calls_names, "R1", "_check_steps:rejects", "transformer and forecaster type checks, name validation",
-              "_check_steps has %d rejecting branches, calls _check_names: %s" % (n_rej, calls_names), ctx.loc(m, cs))
+              "_check_steps has %d rejecting sites, calls _check_names: %s" % (n_rej, calls_names), ctx.loc(m, cs))
 
     # splitters
     bs = repo.cls(SPLIT + ":BaseSplitter")
@@ -286,12 +288,47 @@ def rule_R1(ctx, repo, flow):
         raise AnalysisError("anchor missing: ForecastingHorizon.__init__")
     ok = flow.must_call(init, name_pred("_check_values"), fhc.module, fhc, fhc)
     ctx.check(ok, "R1", "ForecastingHorizon.__init__:_check_values", "values validated on every path", "values can be stored unvalidated", ctx.loc(fhc.module, init))
-    rej = [n for n in ast.walk(init) if isinstance(n, ast.If) and block_always_raises(n.body)]
-    bool_test = any("isinstance(is_relative, bool)" in astq.canon(n.test) and astq.canon(n.test).startswith("(Not") for n in rej)
-    ctx.check(bool_test, "R1", "ForecastingHorizon.__init__:is_relative-bool", "non-bool is_relative rejected",
-              "is_relative is not type-checked", ctx.loc(fhc.module, init))
-    ctx.check(len(rej) >= 3, "R1", "ForecastingHorizon.__init__:type-compat", "index type vs relative/absolute compatibility is checked on both branches",
-              "only %d rejecting branches in the constructor (need bool test + relative + absolute type tests)" % len(rej), ctx.loc(fhc.module, init))
+    from itertools import product as _product
+    from ..boolx import evaluate as _evaluate
+    pci = PathConditions(init, Atomizer())
+    ats = sorted(atoms_of_formula(pci.raises))
+    bool_atoms = [a for a in ats if a.startswith("isinstance(is_relative") and "bool" in a]
+    type_atoms = [a for a in ats if a.startswith("in(type(values")]
+    ok_bool = False
+    ok_type = None
+    if len(bool_atoms) == 1 and len(ats) <= 10:
+        others = [a for a in ats if a not in bool_atoms]
+        ok_bool = all(_evaluate(pci.raises, dict(zip(others, vals), **{bool_atoms[0]: False}))
+                      for vals in _product((False, True), repeat=len(others)))
+        if type_atoms:
+            rest = [a for a in others if a not in type_atoms]
+            ok_type = all(_evaluate(pci.raises, dict(dict(zip(rest, vals), **{a: False for a in type_atoms}), **{bool_atoms[0]: True}))
+                          for vals in _product((False, True), repeat=len(rest)))
+    ctx.check(ok_bool, "R1", "ForecastingHorizon.__init__:is_relative-bool", "non-bool is_relative rejected on every path",
+              "is_relative is not type-checked (rejection condition %s)" % show(pci.raises), ctx.loc(fhc.module, init))
+    ctx.check(ok_type, "R1", "ForecastingHorizon.__init__:type-compat",
+              "a value type admitted for neither relative nor absolute horizons is rejected whatever is_relative is",
+              "index type vs relative/absolute compatibility is not enforced on every path (rejection condition %s)" % show(pci.raises),
+              ctx.loc(fhc.module, init))
+
+
+def _raise_sites(repo, flow, cls, defcls, fn, depth=2, seen=None):
+    """Number of reachable `raise` statements in ``fn`` and in the repo-local helpers it calls (own methods, module functions)."""
+    seen = seen if seen is not None else set()
+    if id(fn) in seen:
+        return 0
+    seen.add(id(fn))
+    g = flow.cfg(fn)
+    reach = g.reachable()
+    n = sum(1 for node in g.nodes if node.id in reach and isinstance(node.stmt, ast.Raise))
+    if depth > 0:
+        for c in astq.calls(fn):
+            if astq.call_name(c) in ("_check_names",):
+                continue
+            t = flow.resolve_call(c, defcls.module, cls, defcls)
+            if t.kind in ("method", "func") and t.func is not None:
+                n += _raise_sites(repo, flow, cls, t.defcls or defcls, t.func, depth - 1, seen)
+    return n
 
 
 def _is_not_none(test, name):
@@ -547,10 +584,10 @@ def rule_R2(ctx, repo):
 
     T = pick(lambda a: a.startswith("in(type(index") and "VALID_INDEX_TYPES" in a)
     M = pick(lambda a: a.endswith(".is_monotonic") or ".is_monotonic_increasing" in a)
-    E = pick(lambda a: a.startswith("lt(len(index") and a.endswith(", 1)"))
+    E = pick(lambda a: a.startswith("eq(len(index") and a.endswith(", 0)"))
     AE = pick(lambda a: a == "allow_empty")
     EI = pick(lambda a: a == "enforce_index_type")
-    IS = pick(lambda a: a.startswith("is(enforce_index_type"))
+    IS = pick(lambda a: a.startswith("is(") and "enforce_index_type" in a and "type(index" in a)
     if None in (T, M, E, AE):
         ok, wit = False, {"found": sorted(ats)}
     else:
@@ -687,12 +724,12 @@ def string_chains(fn):
 def _str_cmp(test):
     if isinstance(test, ast.Compare) and len(test.ops) == 1:
         l, r = test.left, test.comparators[0]
-        if isinstance(test.ops[0], ast.Eq):
+        if isinstance(test.ops[0], (ast.Eq, ast.NotEq)):
             if isinstance(r, ast.Constant) and isinstance(r.value, str) and dotted(l):
                 return dotted(l), [r.value]
             if isinstance(l, ast.Constant) and isinstance(l.value, str) and dotted(r):
                 return dotted(r), [l.value]
-        if isinstance(test.ops[0], ast.In) and dotted(l):
+        if isinstance(test.ops[0], (ast.In, ast.NotIn)) and dotted(l):
             ls = astq.str_consts(r)
             if ls:
                 return dotted(l), ls
@@ -738,10 +775,19 @@ def rule_R3(ctx, repo, flow):
                 tup = vals[0] if len(vals) == 1 else tup
             allowed = astq.str_consts(tup)
     used = []
-    for node in ast.walk(ev):
-        s_, ls = _str_cmp(node) if isinstance(node, ast.Compare) else (None, [])
-        if s_ == "strategy":
-            used.extend(ls)
+    scan = [ev]
+    for c in astq.calls(ev):
+        t = flow.resolve_call(c, emod)
+        if t.kind == "func" and t.func is not None and t.func is not cs and t.module is emod:
+            scan.append(t.func)
+    for f_ in scan:
+        for node in ast.walk(f_):
+            s_, ls = _str_cmp(node) if isinstance(node, ast.Compare) else (None, [])
+            if s_ == "strategy":
+                used.extend(ls)
+    if allowed is not None and not used:
+        ctx.ok("R3", "evaluate:strategy", "no literal dispatch on strategy found in evaluate or its helpers; validator admits %s" % allowed, ctx.loc(emod, ev))
+        return
     ctx.check(allowed is not None and bool(used) and set(used) <= set(allowed), "R3", "evaluate:strategy",
               "evaluate dispatches on %s, validator admits exactly %s and rejects the rest" % (used, allowed),
               "evaluate compares strategy with %s but _check_strategy admits %s" % (used, allowed), ctx.loc(emod, ev))
